@@ -1045,3 +1045,8 @@ V("C05", "constraint-named-function", "silent", "", "the SLSQP equality constrai
 V("C05", "constraint-named-function-wrong-operand", "fire", "C05.R3", "the named constraint subtracts the indices instead of the fixed values",
   ("src/pyhf/optimize/opt_scipy.py", "import scipy\n", "import scipy\nimport numpy as np\n"),
   ("src/pyhf/optimize/opt_scipy.py", _SC, "            def fixed_vals_residual(pars):\n                return np.subtract(np.take(pars, indices), indices)\n\n            constraints = [{'type': 'eq', 'fun': fixed_vals_residual}]\n"))
+V("C19", "sort-output-file-option-dropped", "fire", "C19.R1", "`pyhf sort` loses its documented --output-file option (always prints)",
+  ("src/pyhf/cli/spec.py", "@click.argument('workspace', default='-')\n@click.option(\n    '--output-file',\n    help='The location of the output json file. If not specified, prints to screen.',\n    default=None,\n)\ndef sort(workspace, output_file):", "@click.argument('workspace', default='-')\ndef sort(workspace, output_file=None):"))
+V("C19", "digest-gains-output-file-option", "silent", "", "`pyhf digest` gains an optional --output-file (default: print, as today)",
+  ("src/pyhf/cli/spec.py", "    help='Output the hash values as a JSON dictionary or plaintext strings',\n)\ndef digest(workspace, algorithm, output_json):", "    help='Output the hash values as a JSON dictionary or plaintext strings',\n)\n@click.option('--output-file', default=None, help='Write the digests to this file instead of the screen.')\ndef digest(workspace, algorithm, output_json, output_file):"),
+  ("src/pyhf/cli/spec.py", "    click.echo(output)\n\n\n@cli.command()\n@click.argument('workspace', default='-')\n@click.option(\n    '--output-file',\n    help='The location of the output json file. If not specified, prints to screen.',\n    default=None,\n)\ndef sort(", "    if output_file is None:\n        click.echo(output)\n    else:\n        with open(output_file, 'w+', encoding='utf-8') as out_file:\n            out_file.write(output)\n\n\n@cli.command()\n@click.argument('workspace', default='-')\n@click.option(\n    '--output-file',\n    help='The location of the output json file. If not specified, prints to screen.',\n    default=None,\n)\ndef sort("))
